@@ -4,6 +4,10 @@ import json, os
 ROOT = os.path.dirname(os.path.dirname(os.path.abspath(__file__)))
 TRUST = "TLC 1.8 and the CommunityModules Json/IOUtils; the Rust harness (vh) that drives the public API of /repo's crates; rustc/cargo"
 CHECKS = {
+ "C09": ("DESIGN.md section 6 C09",
+         "EvalWrap (R: identity; I: eval.rs re-serialise o Parser o Expansion) model-checked for every value over 13 character classes: the wrapper is the identity outside the value classes of the recorded finding; every value list replayed through the real direct call / if / elseif / while / not / alias with a capture command and through 5 predicates; random Unicode values recorded and validated by TLC. A deviation counts as the recorded finding only if the real command received exactly what the model of the re-serialisation predicts.",
+         "small-scope exhaustive on values, sampled on Unicode; known finding classes are derived by the model",
+         "TLA+ spec + TLC exhaustive; spec->impl replay; impl->spec trace validation"),
  "C02": ("DESIGN.md section 6 C02",
          "Binding (template semantics: verbatim, single pass, one argument per template, spread = words) model-checked against Expansion (transcription of expansion.rs + bind_command_arguments) for every value over 12 character classes; every emitted case bound by the real run_instruction and parse_text+run_script; random Unicode templates recorded from the real runner validated by TLC.",
          "small-scope exhaustive on values, sampled on Unicode; templates inside the stated domain",
